@@ -169,6 +169,14 @@ def inputs_c01_c02(tier, rng):
         for n in (1, 2, 5, 20, 60):
             out.append(("nest", "fn f() { " + (op + " ") * n))
             out.append(("nest-closed", "fn f() { " + (op + " ") * n + "} " * n))
+    # a text that ENDS inside a run of prefix operators / openers, exactly at and around the round numbers a nesting limit would
+    # have (a guard that fires at depth N meets the end of input only when the text stops right there)
+    for op in ["!", "-", "! ", "[", "#(", "f(", "f(a: ", "panic as ", "todo as ", "{ ", "fn() { ", "case x { _ if ", "x |> ", "1 + ", "<<"]:
+        for lim in ((32, 64, 128, 256, 512, 1024) if tier == "quick" else (16, 32, 64, 100, 128, 200, 250, 256, 500, 512, 1000, 1024, 2048)):
+            for n in (lim - 1, lim, lim + 1):
+                out.append(("cut-at-limit", "pub fn main() {\n  let x = " + op * n))
+            out.append(("cut-at-limit", "const c = " + op * lim))
+            out.append(("cut-at-limit", "pub fn main() {\n  case v {\n    _ if " + op * lim))
     # well-formed deep nesting of every bracketed expression form (single and mixed), followed by another definition
     FORMS = [("[", "]"), ("#(", ")"), ("f(", ")"), ("{ ", " }"), ("fn() { ", " }"), ("!", ""), ("-", ""), ("<<", ">>"), ("[1, ", "]"), ("case x { _ -> ", " }")]
     for n in (3, 30, 63, 64, 65, 66, 100, 130, 150):
